@@ -11,7 +11,7 @@ R-EDGE     template_t::add_edge is the only writer of an edge's endpoints, sets 
 """
 from ..front import AnalysisBroken
 from ..facts import walk, calls, short
-from ..inline import expanded_fn, mutable_uses
+from ..inline import expanded_fn, mutable_uses, path_states, flag_locals, strip
 
 STABLE = ("std::list<", "std::deque<", "list<", "deque<")
 MOVING_OPS = {"insert", "emplace", "erase", "resize", "assign", "swap", "sort", "clear", "pop_front", "push_front",
@@ -261,20 +261,43 @@ def run_edge(chk, F, rid="R-EDGE"):
                     t = short(v["init"]).replace("this->", "")
                     ok = "edges.empty()" in t and "edges.back().nr + 1" in t
     chk.ob(rid, "number|edges", ok, "add_edge does not number edges consecutively from 0", where)
-    # the builder's gate
-    pe = F.fn("UTAP::DocumentBuilder::proc_edge_begin")
-    gates = 0
-    for n in walk(pe["body"]):
-        if n.get("k") == "if":
-            c = short(n["c"])
-            if "resolve" in c and "is_location" in c and "is_branchpoint" in c:
-                gates += 1
-    in_else = False
-    for n in walk(pe["body"]):
-        if n.get("k") == "if" and n.get("else") is not None and any(c.get("name") == "add_edge" for c in calls(n["else"])) \
-                and not any(c.get("name") == "add_edge" for c in calls(n["then"])):
-            in_else = True
-    chk.ob(rid, "builder-gate", gates >= 2 and in_else,
+    # the builder's gate: on every path that reaches add_edge, both endpoint names have passed the test
+    # `resolve(name, sym) && (sym is a location || sym is a branchpoint)` - whatever the shape of the tests (else-if
+    # chain, early returns, an error-message flag tested afterwards, a helper or lambda computing the test)
+    pe = F.nfn("UTAP::DocumentBuilder::proc_edge_begin")
+    pnames = [p_["name"] for p_ in pe["params"][:2]]
+
+    def endpoint_test(c):
+        """(parameter index, truth value of c that means `test passed`) for a condition that tests one endpoint"""
+        txt = short(c)
+        if not ("resolve" in txt and "is_location" in txt and "is_branchpoint" in txt):
+            return None
+        which = [i for i, pn in enumerate(pnames) for r_ in calls(c, "resolve")
+                 if r_.get("args") and any(x.get("k") == "ref" and x.get("name") == pn for x in walk(r_["args"][0]))]
+        if len(set(which)) != 1:
+            return None
+
+        def val(e):     # the formula with every atom true
+            e = strip(e)
+            if e.get("k") == "un" and e.get("op") == "!":
+                return not val(e["e"])
+            if e.get("k") == "bin" and e.get("op") == "&&":
+                return val(e["lhs"]) and val(e["rhs"])
+            if e.get("k") == "bin" and e.get("op") == "||":
+                return val(e["lhs"]) or val(e["rhs"])
+            return True
+        return which[0], val(c)
+
+    def cond_mark(c, truth):
+        t = endpoint_test(c)
+        if t is None:
+            return ()
+        return ("PASS%d" % t[0],) if truth == t[1] else ("FAIL%d" % t[0],)
+    probes = []
+    path_states(pe["body"], lambda e: (), cond_mark, probe=lambda n: n.get("k") == "call" and n.get("name") == "add_edge",
+                probes=probes, flags=flag_locals(pe["body"]))
+    ok = bool(probes) and all({"PASS0", "PASS1"} <= st for _, st in probes)
+    chk.ob(rid, "builder-gate", ok,
            "proc_edge_begin creates the edge without testing both endpoints to be a location or a branchpoint (the "
            "casts in add_edge would reinterpret another kind of object)", "%s:%s" % (pe["file"], pe["line"]))
     # both endpoints are resolved in the current template's scope: same template
